@@ -3,7 +3,7 @@
 use crate::driver::{keys, layout_inverse, layout_value, load_layout_json, Ctx, Layout, Opts, Sandbox};
 use crate::model::{self, compose_step, reph_check, FixedOpts, Rule};
 use crate::props::c01::panic_kind;
-use crate::runner::{hash_of, Failure, Run, Stats, Tier};
+use crate::runner::{hash_of, Failure, Run, Stats};
 use proptest::prelude::*;
 use serde_json::{json, Value};
 
